@@ -51,6 +51,13 @@ from typing import Any
 from checks import common
 from simkit import deploy, sched
 
+# kept-percentile goes beyond the property as stated (it is the docstring reading of
+# PercentilePruner); it is off unless VERIF_C16_EXTRA=1 so that the check never alarms on a
+# change that keeps the stated property
+import os as _os
+
+EXTRA_MONITORS = _os.environ.get("VERIF_C16_EXTRA") == "1"
+
 ID = "C16"
 LEVEL = "exploration"
 BUDGET = {"quick": 50, "thorough": 900}
@@ -362,7 +369,7 @@ def _protections(spec: dict, c: dict) -> list[str]:
         if best is not None:
             if c["min_others"] is None or best < c["min_others"]:
                 out.append("always-better")
-            if c["complete_set_certain"]:
+            if c["complete_set_certain"] and EXTRA_MONITORS:
                 q = 50.0 if k == "median" else spec["percentile"]
                 losses = [sgn * t["iv"][last] for t in c["others"] if t["state"] == "COMPLETE" and last in t["iv"] and not _isnan(t["iv"][last])]
                 n = len(losses)
